@@ -3,6 +3,7 @@ package headers
 import (
 	"fmt"
 	"log/slog"
+	"math"
 	"strconv"
 	"strings"
 	"time"
@@ -17,8 +18,9 @@ func parseCacheControl(ccHeader string) (cacheControl, error) {
 	cc := cacheControl{}
 	// Parse the Cache-Control header for max-age directive
 	for directive := range strings.SplitSeq(ccHeader, ",") {
-		directive = strings.TrimSpace(directive)
-		if directive == "no-cache" || directive == "no-store" {
+		// Directive names are case-insensitive (RFC 9111 §5.2)
+		directive = strings.ToLower(strings.TrimSpace(directive))
+		if directive == "no-cache" || directive == "no-store" || directive == "private" {
 			cc.noCache = true
 		} else if after, ok := strings.CutPrefix(directive, "max-age="); ok {
 			// max-age directive specifies the maximum amount of time a response is considered fresh in seconds.
@@ -30,6 +32,10 @@ func parseCacheControl(ccHeader string) (cacheControl, error) {
 				cc.noCache = true // If max-age is less than 1, treat it as no-cache
 				slog.Debug("max-age is less than 1 second, treating as no-cache", "raw", directive)
 				continue
+			}
+			if maxAge > math.MaxInt64/int64(time.Second) {
+				// Clamp instead of letting the nanosecond conversion wrap around
+				maxAge = math.MaxInt64 / int64(time.Second)
 			}
 			cc.maxAge = time.Duration(maxAge) * time.Second
 		}
